@@ -108,7 +108,9 @@ func (o *orC06) onZK(e *ZKEvent) {
 			if !sw.StartedAt.Equal(r.lastStarted) {
 				r.lastStarted = sw.StartedAt
 				// StartSwitchover (the result of a previous failed attempt stays in the record)
-				if r.openBy != "" && r.openBy != e.Inc {
+				// (an incarnation that lost the lock - cut from ZooKeeper, session expired - may still
+				// be inside its attempt when the new lock owner starts one: that is C03/C07 territory)
+				if r.openBy != "" && r.openBy != e.Inc && m.lockOwner != e.Inc {
 					m.violate("C06", "concurrent_attempts", "two-incarnations-inside-an-attempt", fmt.Sprintf("%s started an attempt on %s while %s was inside one", e.Inc, r.key, r.openBy))
 				}
 				r.openBy = e.Inc
@@ -211,7 +213,9 @@ func (o *orC06) onIterLeave(it *iterRec) {
 	// a daemon that deleted the request must have written its record in the same iteration
 	if r := o.pendingDelete; r != nil && r.deletedBy == it.inc && it.next != "<killed>" {
 		o.pendingDelete = nil
-		if r.terminal == "" {
+		// (C06 is stated for coordination calls that succeed: a manager cut from ZooKeeper or
+		// hit by a failing call between the delete and the record is C07's subject)
+		if r.terminal == "" && it.faults == 0 && m.s.spec.CrashAt == nil {
 			m.violate("C06", "lost_outcome", "request-deleted-by-manager-without-record", fmt.Sprintf("%s deleted %s without writing last_switch/last_rejected_switch", it.inc, r.key))
 			r.terminal = "lost"
 		}
